@@ -4,6 +4,7 @@ import (
 	"context"
 	"errors"
 	"fmt"
+	"math"
 	"os"
 	"testing"
 	"testing/synctest"
@@ -109,7 +110,16 @@ func propDecisionTable(c *Case) {
 
 	if cl.msSet == 1 {
 		cfg.maxStaleness = []time.Duration{30 * time.Second, time.Second, time.Hour, 2 * time.Nanosecond}[c.Pick("MaxStaleness", 4)]
+
+		// "serve stale values (practically) for ever": every reachable age lies within it
+		if cl.state == ksStaleRecent && c.Weighted("huge-MaxStaleness", 5, 1) == 1 {
+			cfg.maxStaleness = []time.Duration{math.MaxInt64, 250 * 365 * 24 * time.Hour}[c.Pick("MaxStaleness-huge", 2)]
+			c.Class("huge-MaxStaleness")
+		}
 	}
+
+	// the backend's janitor never runs here: how long ago an entry expired does not change what a read reports
+	cfg.backendDEA = []time.Duration{0, time.Second, time.Nanosecond}[c.Weighted("backend-DeleteExpiredAfter", 3, 1, 1)]
 
 	if cl.noFailCache == 1 {
 		cfg.failedUpdateTTL = -1
@@ -131,6 +141,10 @@ func propDecisionTable(c *Case) {
 			age = []time.Duration{time.Nanosecond, cfg.maxStaleness / 2, cfg.maxStaleness - 1}[c.Pick("age", 3)]
 			if age <= 0 {
 				age = 1
+			}
+
+			if age > 50*365*24*time.Hour {
+				age = []time.Duration{time.Hour, 48 * time.Hour, 40 * 365 * 24 * time.Hour}[c.Pick("age-huge", 3)]
 			}
 		} else {
 			age = []time.Duration{time.Nanosecond, time.Hour, 240 * time.Hour}[c.Pick("age", 3)]
